@@ -390,7 +390,8 @@ def seq_arrays(v, width):
         if width == 1:
             a = z3.K(z3.IntSort(), z3.IntVal(0))
             for i, x in enumerate(v):
-                a = z3.Store(a, z3.IntVal(i), z3.IntVal(int(x)))
+                if int(x) != 0:
+                    a = z3.Store(a, z3.IntVal(i), z3.IntVal(int(x)))
             _CONST_ARRAYS[key] = (a, z3.IntVal(len(v)))
         else:
             a = z3.K(z3.IntSort(), z3.IntVal(0)); b = z3.K(z3.IntSort(), z3.IntVal(0))
